@@ -325,6 +325,27 @@ CLAIMED["C19"] = (
     COMMON_NOTE + "io.ReadAll is opaque (any byte sequence); unicode.IsLetter/IsDigit are pure; bytes are mathematical integers 0..255.",
     "contract-based deductive verification (representation invariant, loop invariants, no-panic obligations + SMT)", "6/C19")
 
+CLAIMED["C07"] = (
+    "Proof that nothing is fed to a target hash in Go's randomised map iteration order: at every Write (and hashBool/hashMap call) in ruleHash, "
+    "hashMap and sourceHash the execution is outside any loop ranging over a map (engine predicate inmaprange()); the key lists built from "
+    "maps are sorted before they are iterated (hashMap and the provides keys: invariant obligations established from sort.Strings; "
+    "DeclaredOutputNames returns a sorted list; allBuildInputs appends named sources in sorted key order). Kernel-only: independence of "
+    "thread count and package parse order for whole `plz hash` runs is a relation between process runs; that the slices a target holds are "
+    "themselves built deterministically by the parser is not under contract.",
+    COMMON_NOTE + "sort.Strings is an assumed contract (permutation + order).",
+    "contract-based deductive verification (call-site obligations over an in-map-range predicate, sortedness invariants + SMT)", "6/C07")
+
+CLAIMED["C02"] = (
+    "Proof of the keying and verification kernels of cache restores: targetHash is exactly the two rule hashes, the configuration hash and "
+    "the source hash concatenated in that order (element-wise postcondition) and fails when the source hash fails; retrieveArtifacts and "
+    "buildTarget ask and fill the cache only under keys computed by mustShortTargetHash for the same target; a restore counts as a hit only "
+    "after calculateAndCheckRuleHash returned nil, and after a failed verification the restored outputs are removed (RemoveOutputs, proved to "
+    "remove every declared output) and the restore is a miss. Together with C12 (complete-or-nothing directory cache entries). Kernel-only: "
+    "that equal keys imply equal definitions and inputs rests on the hash functions (C07-C09, with their recorded findings); byte-for-byte "
+    "equality of restored and built trees is outside any contract.",
+    COMMON_NOTE + "mustShortTargetHash is used as a function of (state, target) at the time of the call; cache back ends are opaque.",
+    "contract-based deductive verification (element-wise postcondition, ghost call history, call-site obligations + SMT)", "6/C02")
+
 NOT_APPLICABLE = {
     "C05": "liveness / whole-run exit status under all schedules: no per-call contract expresses it (safety fragment is under C04)",
     "C30": "OS process groups, signals and wall-clock bounds; goroutines and select are outside the sequential contract model",
